@@ -163,10 +163,14 @@ func (a *Agent) Start(p pool.Pool) error {
 	running = true
 	go func() {
 		err := a.serveUpdates(p)
-		// The loop ended (stopped, or a failed update): allow starting again.
-		a.mu.Lock()
-		a.started = false
-		a.mu.Unlock()
+		if err != nil {
+			// The loop ended on a failed update: allow starting again. (A
+			// stopped loop has cleared the flag itself; clearing it again
+			// here could clear the flag of a run started in between.)
+			a.mu.Lock()
+			a.started = false
+			a.mu.Unlock()
+		}
 		a.waitCh <- err
 	}()
 	return nil
